@@ -170,10 +170,8 @@ template<int lo, int hi> static void run_andor(Ctor c) {
 }
 extern "C" void h_mkAnd()  { run_andor<0, 2>(C_AND); }
 extern "C" void h_mkAnd3() { run_andor<3, 3>(C_AND); }
-extern "C" void h_mkAnd4() { run_andor<4, 4>(C_AND); }
 extern "C" void h_mkOr()   { run_andor<0, 2>(C_OR); }
 extern "C" void h_mkOr3()  { run_andor<3, 3>(C_OR); }
-extern "C" void h_mkOr4()  { run_andor<4, 4>(C_OR); }
 extern "C" void h_mkXor()  { build_universe(); PTRef a[4]; pick_args(a); bool e = V(a[0]) != V(a[1]); PTRef r = call<2>(C_XOR, a); check(r, e); arg_witness2(a); if (created >= 2) { VWITNESS("auxiliary-negation-created"); } }
 extern "C" void h_mkImpl() { build_universe(); PTRef a[4]; pick_args(a); bool e = !V(a[0]) || V(a[1]); PTRef r = call<2>(C_IMPL, a); check(r, e); arg_witness2(a); if (created >= 2) { VWITNESS("auxiliary-negation-created"); } }
 extern "C" void h_mkIte()  { build_universe(); PTRef a[4]; pick_args(a); bool e = V(a[0]) ? V(a[1]) : V(a[2]); PTRef r = call<3>(C_ITE, a); check(r, e); arg_witness2(a); if (a[1] == a[2]) { VWITNESS("equal-branches"); } }
